@@ -211,6 +211,32 @@ func (x *Exec) lemmaInstance(env *CEnv, call *CExpr) *Term {
 		panic(engineError{"by: lemma application expected, got " + exprSrc(call)})
 	}
 	lm := x.eng.lemmas[call.Name]
+	if lm == nil && call.Name == "pigeonhole" && len(call.Args) == 2 {
+		// built-in: pigeonhole(m, N) for a map m with int keys -
+		// (forall k :: haskey(m, k) ==> 0 <= k < N) ==> len(m) <= N.
+		// A fact of arithmetic about finite sets (a set of integers inside
+		// [0, N) has at most N elements), not about the code: the range of the
+		// keys stays an obligation of the assertion that applies it.
+		m := env.eval(call.Args[0])
+		n := env.eval(call.Args[1])
+		var mt *types.Map
+		if m.Ty != nil && m.Ty.Go != nil {
+			mt, _ = m.Ty.Go.Underlying().(*types.Map)
+		}
+		if mt == nil {
+			panic(engineError{"by: pigeonhole(m, N) needs a map"})
+		}
+		if b, ok := mt.Key().Underlying().(*types.Basic); !ok || b.Info()&types.IsInteger == 0 {
+			panic(engineError{"by: pigeonhole(m, N) needs integer keys"})
+		}
+		st := env.state()
+		k := BoundVar{Name: x.freshBound("k"), Sort: SInt}
+		kt := mk(k.Name, SInt)
+		has := x.mapHas(st, m, Val{T: kt, Ty: tyInt}, mt)
+		_, lh := x.mapLenHeap(st, mt)
+		x.noteTrusted("built-in lemma pigeonhole(m, N): a map whose integer keys all lie in [0, N) has at most N entries (arithmetic of finite sets, not proved by a solver)")
+		return Implies(Forall([]BoundVar{k}, Implies(has, And(Le(IntLit(0), kt), Lt(kt, n.T))), has), Le(st.sel(lh, m.T), n.T))
+	}
 	if lm == nil {
 		panic(engineError{"by: unknown lemma " + call.Name})
 	}
